@@ -8,6 +8,7 @@ def n_of(ctx, quick, thorough):
 
 
 def plan_C01(ctx):
+    e1_int_coder(ctx)
     e1_chunking(ctx)
     run_family(ctx, "build_obs", n_of(ctx, 300, 6000), perfile=n_of(ctx, 20, 40))
     canary(ctx)
@@ -74,6 +75,26 @@ def e1_chunking(ctx):
     tlc_mc(ctx, "Chunking", "MC_Chunking_dev_MergerPreDeleteCard.cfg", workers=4, expect_violation="MergerAgrees")
 
 
+def e1_enumerator(ctx):
+    tlc_mc(ctx, "Enumerator", "MC_Enumerator.cfg", workers=4)
+    tlc_mc(ctx, "Enumerator", "MC_Enumerator_dev_AlwaysSkipEmpty.cfg", workers=4, expect_violation="Complete")
+    if not ctx.quick:
+        tlc_mc(ctx, "Enumerator", "MC_Enumerator_dev_NeverSkipEmpty.cfg", workers=4, expect_violation="Complete")
+
+
+def e1_int_coder(ctx):
+    tlc_mc(ctx, "IntCoder", "MC_IntCoder.cfg")
+    tlc_mc(ctx, "IntCoder", "MC_IntCoder_dev_ResetKeepsLens.cfg", workers=4, expect_violation="ChunksRight")
+    if not ctx.quick:
+        tlc_mc(ctx, "IntCoder", "MC_IntCoder_dev_NoFinalClose.cfg", workers=4, expect_violation="ChunksRight")
+
+
+def e1_stored_codec(ctx):
+    tlc_mc(ctx, "StoredCodec", "MC_StoredCodec.cfg", workers=4)
+    tlc_mc(ctx, "StoredCodec", "MC_StoredCodec_dev_NoFinalFlush.cfg", workers=4, expect_violation="TableShape")
+    tlc_mc(ctx, "StoredCodec", "MC_StoredCodec_dev_ReaderOther.cfg", workers=4, expect_violation="MergedReadsBack")
+
+
 def e1_merge_algo(ctx):
     tlc_mc(ctx, "MergeAlgo", "MC_MergeAlgo_%s.cfg" % tier(ctx))
     devs(ctx, "MergeAlgo", ["CopyPathIgnoresDrops", "FreqFromCard", "OneHitAnyFreq", "SamePrefixOnly"], "AllRefine")
@@ -136,6 +157,7 @@ def plan_tmp(ctx):
 
 
 def plan_C02(ctx):
+    e1_enumerator(ctx)
     e1_merge_algo(ctx)
     e1_chunking(ctx)
     run_family(ctx, "merge_obs", n_of(ctx, 250, 5000), perfile=n_of(ctx, 20, 40))
@@ -152,6 +174,7 @@ def plan_C03(ctx):
 
 
 def plan_C04(ctx):
+    e1_stored_codec(ctx)
     e1_writer_crc(ctx)
     run_family(ctx, "roundtrip", n_of(ctx, 150, 3000), perfile=n_of(ctx, 10, 30))
     run_family(ctx, "merge_obs", n_of(ctx, 120, 2500), perfile=20, seed_off=5)
@@ -159,6 +182,7 @@ def plan_C04(ctx):
 
 
 def plan_C06(ctx):
+    e1_stored_codec(ctx)
     e1_stored_read(ctx)
     e2_stored_read(ctx, n_of(ctx, 32, 400))
     run_family(ctx, "stored_shapes", n_of(ctx, 200, 4000), perfile=n_of(ctx, 20, 40))
@@ -220,6 +244,7 @@ def plan_C09(ctx):
 
 
 def plan_C10(ctx):
+    e1_stored_codec(ctx)
     e1_chunking(ctx)
     run_family(ctx, "xver", n_of(ctx, 80, 1500), perfile=n_of(ctx, 8, 20))
     run_family(ctx, "xver_big", n_of(ctx, 14, 140), perfile=1)
